@@ -119,7 +119,7 @@ pub fn state_to_obs(s: State) -> ObsFlow {
     match s {
         State::HALT => ObsFlow::Halt,
         State::PRINT => ObsFlow::Print,
-        State::JMP(i) => ObsFlow::Jmp(i),
+        State::JMP(i) => ObsFlow::Jmp(i as usize),
         State::NEXT => ObsFlow::Next,
         State::INT(n) => ObsFlow::Int(n),
         State::REPEAT => ObsFlow::Repeat,
@@ -183,10 +183,10 @@ impl Bench {
     }
     pub fn add_data_label(&mut self, name: &str, off: u16) {
         self.labels.insert(name.to_string(), off);
-        self.ictx.label_map.insert(name.to_string(), Label::new(LabelType::DATA, 0, off as usize));
+        self.ictx.label_map.insert(name.to_string(), Label::new(LabelType::DATA, 0, off as _));
     }
     pub fn add_code_label(&mut self, name: &str, idx: usize) {
-        self.ictx.label_map.insert(name.to_string(), Label::new(LabelType::CODE, 0, idx));
+        self.ictx.label_map.insert(name.to_string(), Label::new(LabelType::CODE, 0, idx as _));
     }
     pub fn add_proc(&mut self, name: &str, idx: usize) {
         self.ictx.fn_map.insert(name.to_string(), idx as _);
